@@ -406,9 +406,11 @@ def c03_8(ctx):
         ctx.count(1, h.where())
         top = [s for s in h.body if isinstance(s, ast.If)]
         ok = top and prop_equiv(top[0].test, 'len(%s) > 0' % h.params[0])[0]
-        if not ok:
+        neg = top and not ok and prop_equiv(top[0].test, 'len(%s) == 0' % h.params[0])[0]      # the same split written the other way round
+        nothing = (top[0].body if neg else else_of(top[0])) if top else []
+        if not ok and not neg:
             ctx.fail(h, top[0] if top else h.node, '%s looks at its policy when `%s`, expected whenever there is at least one index' % (name, U(top[0].test) if top else '?'))
-        elif not else_of(top[0]) or const(else_of(top[0])[0].value, 'X') is not None:
+        elif not nothing or not isinstance(nothing[0], ast.Return) or const(nothing[0].value, 'X') is not None:
             ctx.fail(h, top[0], '%s of nothing is not None' % name)
 
 
